@@ -8,6 +8,13 @@ var (
 
 type Topic []byte
 
+// End reports whether every level has been consumed. An empty level is a level like any
+// other ("a/" has two, "/a" too), so the end is marked by the nil remainder Next returns after
+// the last level, not by an empty token.
+func (t Topic) End() bool {
+	return t == nil
+}
+
 func (t Topic) Next() (Topic, string) {
 	end := bytes.IndexByte(t, SEP)
 	if end < 0 {
